@@ -86,13 +86,18 @@ PyByteChar(c, quote) ==
       [] c = quote -> "\\" \o SubSeq(Printable, c - 31, c - 31)
       [] c >= 32 /\ c <= 126 -> SubSeq(Printable, c - 31, c - 31)
       [] OTHER -> "\\x" \o Hex2(c)
-RECURSIVE PyBytesBody(_, _)
-PyBytesBody(b, quote) == IF b = <<>> THEN "" ELSE PyByteChar(Head(b), quote) \o PyBytesBody(Tail(b), quote)
+\* (folded iteratively: payloads can be tens of thousands of bytes long)
+PyBytesBody(b, quote) == FoldLeft(LAMBDA acc, x : acc \o PyByteChar(x, quote), "", b)
 PyBytesRepr(b) ==
     LET hasS == \E i \in 1..Len(b) : b[i] = 39
         hasD == \E i \in 1..Len(b) : b[i] = 34
     IN IF hasS /\ ~hasD THEN "b\"" \o PyBytesBody(b, 34) \o "\""
        ELSE "b'" \o PyBytesBody(b, 39) \o "'"
+
+\* repr(msg): "UBXMessage(b'\\x05', b'\\x01', 0)" / "UBXMessage(b'\\x05', b'\\x01', 0, payload=b'...')" - the text eval() turns back into the message
+MsgRepr(cls, id, mode, P) ==
+    "UBXMessage(" \o PyBytesRepr(<<cls>>) \o ", " \o PyBytesRepr(<<id>>) \o ", " \o ToString(mode)
+        \o (IF P = <<>> THEN "" ELSE ", payload=" \o PyBytesRepr(P)) \o ")"
 
 \* hextable(raw, cols): rows of 2*cols bytes: "OOO: hhhh hhhh ...  | b'..' |\n"
 Dec3(n) == IF n < 10 THEN "00" \o ToString(n) ELSE IF n < 100 THEN "0" \o ToString(n) ELSE ToString(n)
